@@ -345,7 +345,18 @@ def run(tier, seed):
                  lambda: space.root.add_float_param('y', 1.0, 0.0), lambda: space.root.add_float_param('z', 0.0, math.inf),
                  lambda: space.root.add_discrete_param('d', [1.0, 1.0]), lambda: space.root.select('x', [0.5]).add_int_param('k', 1, 2),
                  lambda: space.root.add_categorical_param('c', ['q'])]
-    f = r.choice(bad_calls)
+    # children under a continuous parameter, also a degenerate one (lower bound = upper bound), by every route
+    space.root.add_float_param('p', 0.5, 0.5)
+    space.root.add_float_param('w', 0.25, 0.75, scale_type=vz.ScaleType.LOG)
+    child = vz.ParameterConfig.factory('kid', bounds=(0.0, 1.0))
+    bad_calls += [lambda: space.root.select('p', [0.5]).add_int_param('k', 1, 2),
+                  lambda: space.root.select('p').select_values([0.5]).add_float_param('k', 0.0, 1.0),
+                  lambda: vz.ParameterConfig.factory('q', bounds=(0.5, 0.5), children=[([0.5], child)]),
+                  lambda: vz.ParameterConfig.factory('q', bounds=(0.0, 1.0), children=[([0.5], child)]),
+                  lambda: space.root.select('w', [0.25]).add_categorical_param('k', ['a']),
+                  lambda: vz.ParameterConfig.factory('q', bounds=(2, 2), children=[([2], child)]) if False else
+                          space.root.select('p', [0.5, 0.5]).add_bool_param('k')]
+    f = bad_calls[i % len(bad_calls)] if i < 2 * len(bad_calls) else r.choice(bad_calls)
     try:
       f()
       viol('an invalid parameter definition was accepted by the builder', {'call_index': bad_calls.index(f)})
